@@ -32,6 +32,9 @@ def run_one(m, thorough=False, keep=False, replay=False):
         edits = m.get("edits") or [(m["file"], m["old"], m["new"])]
         for (f, old, new) in edits:
             p = os.path.join(repo, f)
+            if old == "":  # a new file
+                open(p, "w").write(new)
+                continue
             s = open(p).read()
             if s.count(old) != m.get("count", 1):
                 res["status"] = "BAD-MUTANT (pattern occurs %d times in %s)" % (s.count(old), f)
